@@ -12,6 +12,8 @@ import (
 func (fc *FnCtx) dryRun(st *State, label string, iter func(d *State)) []any {
 	// save ordinals so that names in the real run are unaffected
 	savedLoopOrd, savedRetOrd := fc.loopOrd, fc.retOrd
+	savedInvCall := fc.invCallOrd
+	defer func() { fc.invCallOrd = savedInvCall }()
 	savedCall := map[string]int{}
 	for k, v := range fc.callOrd {
 		savedCall[k] = v
@@ -32,6 +34,7 @@ func (fc *FnCtx) dryRun(st *State, label string, iter func(d *State)) []any {
 	savedAbs, savedUns := len(fc.abstracted), len(fc.unsupported)
 	savedInl := fc.inl
 
+	wStart, aStart := len(fc.wlog), len(fc.alog)
 	fc.dry++
 	d := st.clone()
 	lv := fc.freshSort("dry", SBool)
@@ -54,6 +57,25 @@ func (fc *FnCtx) dryRun(st *State, label string, iter func(d *State)) []any {
 			}
 		}
 	}
+	// field arrays that the iteration wrote only at references it allocated itself: everything that
+	// existed at the loop head is unchanged in them (re-asserted by havocKeys after the havoc)
+	fresh := map[string]bool{}
+	for _, a := range fc.alog[aStart:] {
+		fresh[a] = true
+	}
+	foreign := map[heapKey]bool{}
+	for _, w := range fc.wlog[wStart:] {
+		if !fresh[w.base] && w.base != "fresh-only-call" {
+			foreign[w.key] = true
+		}
+	}
+	fc.freshOnly = map[any]bool{}
+	for k := range mod {
+		if hk, ok := k.(heapKey); ok && hk.Kind == "F" && !foreign[hk] {
+			fc.freshOnly[k] = true
+		}
+	}
+	fc.wlog, fc.alog = fc.wlog[:wStart], fc.alog[:aStart]
 	// restore
 	fc.loops = savedLoops
 	for i, c := range fc.loops {
@@ -79,7 +101,18 @@ func (fc *FnCtx) dryRun(st *State, label string, iter func(d *State)) []any {
 
 // havocKeys gives fresh values to the listed keys of st.
 func (fc *FnCtx) havocKeys(st *State, keys []any) {
+	freshOnly := fc.freshOnly
+	fc.freshOnly = nil
+	allocAtHead := fc.get(st, allocKey, SInt, nil)
 	for _, k := range keys {
+		if freshOnly[k] {
+			old := st.vars[k]
+			nv := fc.freshSort(fc.keyName(k), old.Sort)
+			nv.T = old.T
+			fc.assume(st, boolT(fmt.Sprintf("(forall ((qp Int)) (! (=> (<= qp %s) (= (select %s qp) (select %s qp))) :pattern ((select %s qp))))", allocAtHead.S, nv.S, old.S, nv.S)))
+			st.vars[k] = nv
+			continue
+		}
 		old, ok := st.vars[k]
 		if !ok {
 			continue
